@@ -14,13 +14,63 @@ NOTES = ("Every check: cargo-builds /verif/harness against /repo's working tree,
          "judge the recorded events / dumped artefacts against the TLA+ specification in /verif/spec "
          "(and runs the design-level MC_* models). Exit 0/1/2 as described in DESIGN.md section 10.")
 
-CLAIMED = {
-    "C20": {
+CLAIMED_C20 = {
         "text": "TLC evaluates the set-theoretic definition of every CharSet operation (module Chars) on every call the harness makes on the real crate: all pairs/triples of intervals of a block-embedded small scope that contains every order/adjacency pattern of <= 3 intervals (including 0 and 0x2FFFF as end points) plus seeded random real intervals; a design-level model (MC_Chars) checks the closed forms and the region lemma that makes the real-alphabet quantifiers finite.",
         "ref": "5 C20, 2.4",
         "note": "Complete small scope + regions, not a proof over all 2^36 interval pairs. Trusted: TLC, the Json module, Debug formatting of CharSet for reading result end points.",
         "technique": "TLA+ trace validation with TLC (set-theoretic oracle) + TLC small-scope model of the region lemma",
-    },
+    }
+
+T_PRODUCT = "TLA+ trace validation with TLC: exact product exploration of dumped artefacts against the residual automaton of the construction AST"
+T_TRACE = "TLA+ trace validation with TLC (implementation -> specification), small-scope + seeded random drivers"
+T_GEN = "TLC-generated behaviours of the TLA+ state machine replayed on the crate, every step judged by TLC trace validation"
+
+def _c(text, ref, note, technique):
+    return {"text": text, "ref": ref, "note": note, "technique": technique}
+
+BASE_NOTE = ("Trusted: TLC and the CommunityModules Json reader, the TLA+ definitions of the SMT-LIB semantics (short, and cross-checked "
+             "by design-level MC_* models run inside the check), the Rust harness (no oracle logic: it builds inputs, calls the public API and serialises). ")
+
+CLAIMED = {
+    "C01": _c("Every construction program of the generated families (all of depth <= 1 over 18 atoms, stratified depth 2, second alphabet layout, semantically-empty family, seeded random depth <= 5; fresh and dirty managers; ReManager methods and re_* wrappers) is compared with the SMT-LIB denotation of its AST: TLC explores the product of the term's derivative graph (obtained by calling char_derivative/nullable) with the specification's residual automaton, which decides membership for ALL strings, plus str_in_re on all short words and the nullable flag. MC_Regex validates the residual automaton against the denotational semantics.",
+              "5 C01, 2.4, App. A", BASE_NOTE + "Exact per generated case; the quantifier over programs is discharged by enumeration/sampling, not proof. Cases above a residual-automaton cost limit are checked on bounded words only.", T_PRODUCT),
+    "C02": _c("Every automaton returned by compile / try_compile(Some) for the generated program families is dumped by calling next/is_final on one character per region (all 196608 characters for a sample) and explored in product with the residual automaton of the AST: language equality for all strings; totality of next, structural determinism/totality per state, counters and accepts/str_next folds are checked per case.",
+              "5 C02", BASE_NOTE + "Exact per generated case (all strings; characters via regions, literally all characters on a sample).", T_PRODUCT),
+    "C03": _c("For the root and first derivatives of every generated term TLC spawns one product root per (derivative class, every representative character of the class incl. both end points), per accepted set [a,b] (both end points) and per str_derivative word: the returned term must be the left quotient for all continuations; class list covers the alphabet, BadClassId on invalid ids, set_derivative is defined exactly when the set lies in one class (set-theoretic cover over boundary points).",
+              "5 C03", BASE_NOTE + "Exact per case; sets range over all pairs of boundary points of the classes (+-1, 0, 0x2FFFF).", T_PRODUCT),
+    "C04": _c("Every complete DFA with <= 3 states over 2 letters (TLC-enumerated by MC_Dfa, 5898) is built through AutomatonBuilder in three styles under block embeddings and minimized; plus seeded random DFAs (<= 12 states, <= 4 letters) and compiled automata. Per case TLC decides by fixpoints on the dumps: language preserved, no two result states Nerode-equivalent, result size = Myhill-Nerode index when all states are reachable, initial/final/counter consistency; a panic is a violation.",
+              "5 C04", BASE_NOTE + "Exact per automaton; exhaustive to 3 states x 2 letters, sampled beyond.", T_GEN),
+    "C05": _c("is_empty_re and get_string (both call orders) on the generated families plus the semantically-empty family under two alphabet layouts; TLC decides emptiness of the AST exactly (reachability closure in the residual automaton) and checks the witness against the AST, membership test and compiled automaton.",
+              "5 C05", BASE_NOTE + "Exact per case.", T_TRACE),
+    "C06": _c("Every call of the ten string functions on subjects <= 4 / patterns <= 2(3) over two letters with boundary integers (i32::MIN..i32::MAX) and seeded random real strings is compared by TLC with the SMT-LIB 2.6 definitions transcribed in SmtStrings.tla (internal consistency of the definitions: MC_Strings).",
+              "5 C06", BASE_NOTE + "Bounded small scope (functions compare characters only for equality) + random; not a proof over all strings.", T_TRACE),
+    "C07": _c("TLC enumerates histories (prefix of disturbing constructor/derivative/compile/emptiness calls . id-order-sensitive target) from MC_Manager; the harness executes each on a fresh ReManager, a fresh thread-local manager and a dirty one, re-issues every construction and logs identities; TLC checks on every history: same constructor+arguments => same identity, == iff same object, complement involution without fixed point, and the language (nullable, membership, exact emptiness) equals the AST denotation in that history; plus long random histories.",
+              "5 C07", BASE_NOTE + "Histories exhaustive to prefix depth 2 over a 16-call pool x 140 targets (sampled 1/8 in the quick tier), random beyond.", T_GEN),
+    "C08": _c("parse_smt_literal on every prefix of every text <= 4(5) over the 8 critical symbols, the escape-attempt family and random texts is compared with the grammar-level Decode and step by step with the LiteralParser state machine (proved equal on the small scope by MC_Literals); Display/smt_char_as_string/char_to_smt outputs must be printable ASCII, double quotes, and decode back to the original string (content spelling escapes, single code points incl. all boundaries).",
+              "5 C08", BASE_NOTE + "Bounded small scope + escape-directed families; single code points stride-sampled in quick, all in thorough.", T_TRACE),
+    "C09": _c("str_lt/str_le on all pairs of strings <= 3 over 3 letters, str_to_int on digit strings around every power of ten / 2^31 / 2^32, from_int/to_int round trips, from_code/to_code for EVERY code 0..0x2FFFF+64, validated by TLC against SmtStrings.tla; the same driver is built and run in the dev profile (overflow checks on) and the release profile (off).",
+              "5 C09", BASE_NOTE + "Boundary-directed; both build configurations exercised on every run.", T_TRACE),
+    "C10": _c("str_replace_re / str_replace_re_all through the wrappers (fresh and long-lived thread-local managers) for all depth <= 1 patterns over 7 atoms, sampled depth 2 and random patterns on all subjects <= 3 (sample of 4/5) over {a,b}: TLC computes the leftmost-then-shortest match with the residual automaton (checked against the SMT-LIB clause on Matches by MC_Regex) and compares results.",
+              "5 C10", BASE_NOTE + "Bounded small scope.", T_TRACE),
+    "C11": _c("TLC enumerates every behaviour of the PartitionObj state machine over 0..6 (New/FromSet + enabled Push; TryFromList on every list of <= 3 intervals in every order); the harness replays them under block embeddings, logging the projection after every action and class_of_char / interval_cover / class_of_set / good_char_set on all block-aligned and interior query points; TLC judges with the set-theoretic definitions of Partitions.tla; plus random real partitions and full-alphabet scans.",
+              "5 C11, 2.4", BASE_NOTE + "Complete small scope (every order/adjacency pattern of <= 3 intervals) + regions.", T_GEN),
+    "C12": _c("merge_partitions on ordered pairs of all TLC-generated partitions of 0..6 (every 40th pair quick / all 372100 thorough) under block embeddings, merge_partition_list on all permutations of triples, [] and neutral element, random real partitions: refinement of both, sorted/disjoint, maximality between adjacent characters, complement = intersection with witness; the literal 'exactly when' reading is evaluated too and its representation-induced failures are a structurally identified known finding.",
+              "5 C12, 6 F9", BASE_NOTE + "Complete small scope + regions. One open known finding (F9).", T_GEN),
+    "C13": _c("TLC enumerates call sequences of the Builder state machine (MC_Builder: <= 2(3) transitions of state 0 in every order over the six labels of 0..2, defaults incl. overriding, small completions of states 1 and 2, final flags); the harness replays them under block embeddings; TLC recomputes the verdict class (MustReject/MustAccept/Either) from the recorded calls and, on Ok, checks initial state, finals, counters and next = SpecDelta on every region representative; plus random sequences with holes/overlaps/shuffled order.",
+              "5 C13", BASE_NOTE + "Exhaustive call sequences of the bounded model (quick: all accept/either + 1/3 of rejects).", T_GEN),
+    "C14": _c("On the C04 automaton families: remove_unreachable_states must be a renaming of exactly the reachable part (synchronous product is a bijection onto all result states, same language); combined_char_partition sound, pick_alphabet one per class in order, every cell of compile_successors = next, edges/final_states/counters consistent, char_set_next by set-theoretic cover.",
+              "5 C14", BASE_NOTE + "Exact per automaton (all cells, all states, all regions).", T_GEN),
+    "C15": _c("Every LoopRange operation on all pairs of ranges with parameters <= 5(6) and all factors is judged by the set semantics on a window derived from the arguments; random parameters < 2^15 by closed forms proved equivalent on the small scope by MC_LoopRanges (which also checks the window argument and the gap criterion behind mk_loop's flattening rule).",
+              "5 C15", BASE_NOTE + "Complete small scope; closed forms beyond; values >= 2^31 outside TLC's integers.", T_TRACE),
+    "C16": _c("included_in on factor pairs, random pattern pairs (<= 4 factors, with complement/union/intersection), widening pairs and sub-term pairs; whenever the answer is true TLC decides L(r) subset L(s) exactly (emptiness of r & ~s).",
+              "5 C16", BASE_NOTE + "Exact per pair; false answers are not judged (the property gives them no meaning).", T_TRACE),
+    "C17": _c("Every public SmtString constructor on boundary / swept inputs (From<char> over U+0000..U+10FFFF, strings mixing planes, integer slices/vectors/arrays), parse_smt_literal, and the result of every str_* call, literal and get_string in the C06/C08/C05 traces must be well formed, keep valid code points, replace out-of-range integers by 0xFFFD, and be usable as a regular expression without panic.",
+              "5 C17", BASE_NOTE + "Per string exact; character sweep strided in quick, complete in thorough.", T_TRACE),
+    "C18": _c("start_char on every region representative and start_class on every valid/invalid class id (both call orders) for the C01/C05 families; oracle: exact non-emptiness of the left quotient by closure in the residual automaton.",
+              "5 C18", BASE_NOTE + "Exact per case.", T_TRACE),
+    "C19": _c("iter_derivatives listed twice (identity lists), closedness under char_derivative on every region representative, BFS-generation order, try_compile at bounds 0, L-1, L, L+1, usize::MAX and compile state counts, on the C01 families plus loops with counters up to 40.",
+              "5 C19", BASE_NOTE + "Exact per expression (characters via regions); > 1500 derivatives: counts only.", T_TRACE),
+    "C20": CLAIMED_C20,
 }
 
 NOT_YET = {}
